@@ -295,7 +295,7 @@ async fn run_ops(ops: &[Op]) -> Built {
                 };
                 if let Err(e) = u.apply(upd).await {
                     use domain::zonetree::update::Error as E;
-                    errs.push(format!("{}:{}", i, match e { E::Finished => "Finished", E::OutOfZone => "OutOfZone", E::NotSoaRecord => "NotSoa", E::IoError(_) => "Io" }));
+                    errs.push(format!("{}:{}", i, match e { E::Finished => "Finished", E::OutOfZone => "OutOfZone", E::NotSoaRecord => "NotSoa", E::IoError(_) => "Io", E::SoaMismatch => "SoaMismatch" }));
                 }
             }
             Op::UDrop => { updater = None; }
